@@ -3,7 +3,8 @@ component pairs _S/_Sinv (8 boxes), _IP/_FP, _L/_Linv are mutual inverses on the
 crysp.utils.operators.rol/ror for every width and amount.
 
 The predicate is the round trip itself evaluated on the real code (`*.rt.*` ops return f_inv(f(x)); it must be x), the
-length law, and for rol/ror an independent bit-list rotation."""
+length law (`serpent.len.*`), and for rol/ror an independent bit-list rotation.  Only round trips are compared here, not
+the values of enc or of the components (that is C02): a change that keeps everything invertible is not a C03 failure."""
 from props.common import *
 from props.parts import c02_serpent as c2
 
@@ -24,12 +25,14 @@ def run_impl(line):
     from crysp.utils.operators import rol, ror
     from crysp.bits import Bits
     t = line.split(); op, a = t[0], t[1:]
-    if not op.startswith(('serpent.rt.', 'ops.')): return c2.run_impl(line)
+    if not op.startswith(('serpent.rt.', 'serpent.len.', 'ops.')): return c2.run_impl(line)
     def go():
         if op == 'serpent.rt.encdec':
             S = sp.Serpent(c2.impl_operand(a[0])); return hx(S.dec(S.enc(c2.impl_operand(a[1]))))
         if op == 'serpent.rt.decenc':
             S = sp.Serpent(c2.impl_operand(a[0])); return hx(S.enc(S.dec(c2.impl_operand(a[1]))))
+        if op == 'serpent.len.enc': return str(len(sp.Serpent(c2.impl_operand(a[0])).enc(c2.impl_operand(a[1]))))
+        if op == 'serpent.len.dec': return str(len(sp.Serpent(c2.impl_operand(a[0])).dec(c2.impl_operand(a[1]))))
         if op == 'serpent.rt.S': return fb(sp._Sinv(int(a[0]), sp._S(int(a[0]), mkbits(a[1]))))
         if op == 'serpent.rt.Sinv': return fb(sp._S(int(a[0]), sp._Sinv(int(a[0]), mkbits(a[1]))))
         if op == 'serpent.rt.IP': return fb(sp._FP(sp._IP(mkbits(a[0]))))
@@ -47,16 +50,15 @@ def run_impl(line):
 def check_impl(line, res):
     t = line.split(); op, a = t[0], t[1:]
     bad = lambda why: '%s: %s' % (op, why)
-    if op in ('serpent.rt.encdec', 'serpent.rt.decenc', 'serpent.enc', 'serpent.dec'):
+    if op in ('serpent.rt.encdec', 'serpent.rt.decenc', 'serpent.len.enc', 'serpent.len.dec'):
         klen, k = c2.operand_sv(a[0]); bl, b = c2.operand_sv(a[1])
         if klen > 256 or bl != 128: return None if res == 'ERR' else bad('undefined key/block size must be rejected')
         if res == 'ERR': return bad('admissible key/block refused')
-        if len(res) != 33: return bad('result is %d bytes, the block has 16' % ((len(res) - 1) // 2))
-        if op.startswith('serpent.rt.'):
-            exp = hx(b.to_bytes(16, 'little'))
-            return None if res == exp else bad('round trip returned %s' % res)
-        return None
-    if op.startswith('serpent.rt.') or op in ('serpent.S', 'serpent.Sinv', 'serpent.IP', 'serpent.FP', 'serpent.L', 'serpent.Linv'):
+        if op.startswith('serpent.len.'):
+            return None if res == '16' else bad('result is %s bytes, the block has 16' % res)
+        exp = hx(b.to_bytes(16, 'little'))
+        return None if res == exp else bad('round trip returned %s' % res)
+    if op.startswith('serpent.rt.'):
         box = op.split('.')[-1] in ('S', 'Sinv')
         i = int(a[0]) if box else 0
         n, x = unbt(a[1] if box else a[0])
@@ -87,7 +89,7 @@ def rot_values(w, rng, k):
 def rot_cases(tier, rng):
     q = tier == 'quick'
     for w in range(0, 71):
-        edge, rnd = rot_values(w, rng, 1 if q else 4)
+        edge, rnd = rot_values(w, rng, 1 if q else 8)
         for k in range(0, w + 1):
             vals = [edge[(k + w) % len(edge)]] + rnd if q else edge + rnd
             if k in (0, 1, w - 1, w) or not q: vals = edge + rnd
@@ -118,10 +120,9 @@ def cases(tier, rng):
             w = rng.randrange(0, 130); k = rng.randrange(0, w + 2); v = rng.getrandbits(w) if w else 0
             for op in ('ops.rol', 'ops.ror', 'ops.rt.rol', 'ops.rt.ror'): yield '%s %s %d' % (op, bt(w, v), k), 'search'
         return
-    yield from c2.cipher_cases(RT + ('serpent.enc',), tier, rng)
-    yield from c2.component_cases(('serpent.rt.S', 'serpent.rt.Sinv', 'serpent.S', 'serpent.Sinv'),
-                                  ('serpent.rt.IP', 'serpent.rt.FP', 'serpent.rt.L', 'serpent.rt.Linv',
-                                   'serpent.IP', 'serpent.FP', 'serpent.L', 'serpent.Linv'), tier, rng)
+    yield from c2.cipher_cases(RT + ('serpent.len.enc', 'serpent.len.dec'), tier, rng)
+    yield from c2.component_cases(('serpent.rt.S', 'serpent.rt.Sinv'),
+                                  ('serpent.rt.IP', 'serpent.rt.FP', 'serpent.rt.L', 'serpent.rt.Linv'), tier, rng)
     yield from rot_cases(tier, rng)
 
 
